@@ -8,7 +8,7 @@ func vClone(x []byte) []byte { return append([]byte{}, x...) }
 
 func vConcat(a, b []byte) []byte { return append(vClone(a), b...) }
 
-//verif: cover=roundtrip bounds="channel name 0..4 bytes (any content), payload 2 chunks of 0..3 and 0..2 bytes"
+// verif: cover=roundtrip bounds="channel name 0..4 bytes (any content), payload 2 chunks of 0..3 and 0..2 bytes"
 func VH_C15_stringRoundTrip() bool {
 	cb := vBytes(4)
 	c := string(cb)
@@ -25,7 +25,7 @@ func VH_C15_stringRoundTrip() bool {
 	return vAnd(ok, vAnd(vEqBytes(p1, o1), vEqBytes(p2, o2)))
 }
 
-//verif: cover=roundtrip bounds="channel name 126..130 bytes (2-byte varint length boundary), payload 0..2 bytes"
+// verif: cover=roundtrip bounds="channel name 126..130 bytes (2-byte varint length boundary), payload 0..2 bytes"
 func VH_C15_stringRoundTripLong() bool {
 	n := vInt(126, 130)
 	cb := vBytesN(n)
@@ -40,7 +40,7 @@ func VH_C15_stringRoundTripLong() bool {
 	return vAnd(c2 == c, vEqBytes(body, p1))
 }
 
-//verif: cover=equal-frames bounds="two (channel,payload) pairs, names 0..3 bytes, payloads 0..3 bytes: equal frames imply equal pairs"
+// verif: cover=equal-frames bounds="two (channel,payload) pairs, names 0..3 bytes, payloads 0..3 bytes: equal frames imply equal pairs"
 func VH_C15_stringInjective() bool {
 	c1 := string(vBytes(3))
 	x1 := vBytes(3)
@@ -56,7 +56,7 @@ func VH_C15_stringInjective() bool {
 	return vAnd(c1 == c2, vEqBytes(x1, x2))
 }
 
-//verif: cover=roundtrip bounds="every uint64 channel (varint 1..10 bytes), payload 2 chunks 0..3,0..2 bytes"
+// verif: cover=roundtrip bounds="every uint64 channel (varint 1..10 bytes), payload 2 chunks 0..3,0..2 bytes"
 func VH_C15_varintRoundTrip() bool {
 	c := vU64()
 	p1 := vBytes(3)
@@ -72,7 +72,7 @@ func VH_C15_varintRoundTrip() bool {
 	return vAnd(ok, vAnd(vEqBytes(p1, o1), vEqBytes(p2, o2)))
 }
 
-//verif: cover=equal-frames bounds="two (uint64 channel,payload 0..3 bytes) pairs: equal frames imply equal pairs"
+// verif: cover=equal-frames bounds="two (uint64 channel,payload 0..3 bytes) pairs: equal frames imply equal pairs"
 func VH_C15_varintInjective() bool {
 	c1 := vU64()
 	x1 := vBytes(3)
@@ -88,7 +88,7 @@ func VH_C15_varintInjective() bool {
 	return vAnd(c1 == c2, vEqBytes(x1, x2))
 }
 
-//verif: cover=roundtrip bounds="every uint16 channel, payload 2 chunks 0..3,0..2 bytes"
+// verif: cover=roundtrip bounds="every uint16 channel, payload 2 chunks 0..3,0..2 bytes"
 func VH_C15_uint16RoundTrip() bool {
 	c := vU16()
 	p1 := vBytes(3)
@@ -104,7 +104,7 @@ func VH_C15_uint16RoundTrip() bool {
 	return vAnd(ok, vAnd(vEqBytes(p1, o1), vEqBytes(p2, o2)))
 }
 
-//verif: cover=roundtrip bounds="every uint32 channel, payload 2 chunks 0..3,0..2 bytes"
+// verif: cover=roundtrip bounds="every uint32 channel, payload 2 chunks 0..3,0..2 bytes"
 func VH_C15_uint32RoundTrip() bool {
 	c := vU32()
 	p1 := vBytes(3)
@@ -120,7 +120,7 @@ func VH_C15_uint32RoundTrip() bool {
 	return vAnd(ok, vAnd(vEqBytes(p1, o1), vEqBytes(p2, o2)))
 }
 
-//verif: cover=roundtrip bounds="every uint64 channel, payload 2 chunks 0..3,0..2 bytes"
+// verif: cover=roundtrip bounds="every uint64 channel, payload 2 chunks 0..3,0..2 bytes"
 func VH_C15_uint64RoundTrip() bool {
 	c := vU64()
 	p1 := vBytes(3)
